@@ -14,6 +14,7 @@ import json
 import math
 import os
 import random
+import tempfile
 from fractions import Fraction
 
 from ..core import Ctx, generic_replay
@@ -37,7 +38,18 @@ NULL_L = -20 * LU
 NAMES = {(3, 0): ["chr1", "chr2", "chr10", "chrX", "chrY"], (3, 1): ["1", "2", "10", "X", "Y"],
          (0, 0): ["chrX", "chrY", "chrM"], (0, 1): ["X", "Y", "M"]}
 ANTI = ("Antitarget", "Background")
-NOVAR = {"kind": "none", "k": 0, "k16": 0, "fnum": 1, "fden": 1, "tperm": [], "aperm": [], "rperm": []}
+# how a table object with the wanted row order is produced (the content is the same; the property says "unchanged by
+# permuting the rows of any input", however the caller got the rows into that order):
+#   fresh               built directly from the rows in that order
+#   file                the sorted table written to a .cnn file, read back with cnvlib.read (which sorts), then
+#                       arr.as_dataframe(arr.data.iloc[perm])
+#   sort_asdf           built, .sort(), then arr.as_dataframe(arr.data.iloc[perm])
+#   sort_assign         built, .sort(), then arr.data = arr.data.iloc[perm].reset_index(drop=True)
+#   sort_assign_noreset the same without reset_index (the index labels are permuted too)
+#   copy_reorder        arr.copy() of a sorted array, rows reordered in place
+BUILDS = ["fresh", "file", "sort_asdf", "sort_assign", "sort_assign_noreset", "copy_reorder"]
+FRESH = ["fresh", "fresh", "fresh"]                 # target, antitarget, reference
+NOVAR = {"kind": "none", "build": FRESH, "k": 0, "k16": 0, "fnum": 1, "fden": 1, "tperm": [], "aperm": [], "rperm": []}
 
 
 # ------------------------------------------------------------------------------------------------ real code
@@ -45,7 +57,51 @@ def _names(inp):
     return NAMES[(inp["nauto"], inp.get("naming", 0))]
 
 
-def _sample_table(rows, names, anti, shift=0.0, factor=1.0):
+def _assemble(recs, cols, keys, mode, sample_id):
+    """The CopyNumArray holding `recs` in the given order, produced the way `mode` says (see BUILDS)."""
+    import pandas as pd
+    from cnvlib.cnary import CopyNumArray as CNA
+    n = len(recs)
+    meta = {"sample_id": sample_id}
+    if mode == "fresh" or n == 0:
+        return CNA(pd.DataFrame.from_records(recs, columns=cols), meta)
+    order = sorted(range(n), key=lambda i: (keys[i], i))          # genomic order (ids are in natural name order)
+    pos = [0] * n
+    for p, i in enumerate(order):
+        pos[i] = p                                                # wanted row i is row pos[i] of the sorted table
+    srt = pd.DataFrame.from_records([recs[i] for i in order], columns=cols)
+    if mode == "file":
+        import cnvlib
+        fd, path = tempfile.mkstemp(suffix=".cnn", dir=os.environ.get("VERIF_TMPDIR") or None)
+        os.close(fd)
+        try:
+            srt.to_csv(path, sep="\t", index=False)               # repr floats: the round trip is exact
+            arr = cnvlib.read(path, sample_id=sample_id)
+        finally:
+            os.unlink(path)
+        # (pandas' default float parser may be 1 ulp off on 17-digit values -- only the non-dyadic rescaled twin has any)
+        if list(arr.data["start"]) != list(srt["start"]) or \
+                any(abs(x - y) > 1e-9 for x, y in zip(arr.data["log2"], srt["log2"])):
+            raise MachineryError("file round trip changed the table")
+        return arr.as_dataframe(arr.data.iloc[pos])
+    arr = CNA(srt, meta)
+    arr.sort()
+    if mode == "sort_asdf":
+        return arr.as_dataframe(arr.data.iloc[pos])
+    if mode == "sort_assign":
+        arr.data = arr.data.iloc[pos].reset_index(drop=True)
+        return arr
+    if mode == "sort_assign_noreset":
+        arr.data = arr.data.iloc[pos]
+        return arr
+    if mode == "copy_reorder":
+        dup = arr.copy()
+        dup.data = dup.data.take(pos).reset_index(drop=True)
+        return dup
+    raise MachineryError(f"unknown table construction {mode}")
+
+
+def _sample_table(rows, names, anti, shift=0.0, factor=1.0, mode="fresh"):
     import pandas as pd
     from cnvlib.cnary import CopyNumArray as CNA
     recs = []
@@ -57,7 +113,7 @@ def _sample_table(rows, names, anti, shift=0.0, factor=1.0):
             recs.append((names[c - 1], s, e, gene, 2.0 ** (l / LU) * 100.0 * factor, l / LU + shift))
     cols = ["chromosome", "start", "end", "gene", "depth", "log2"]
     if recs:
-        df = pd.DataFrame.from_records(recs, columns=cols)
+        return _assemble(recs, cols, [tuple(r[:3]) for r in rows], mode, "smp")
     else:
         df = pd.DataFrame({"chromosome": pd.Series([], dtype=str), "start": pd.Series([], dtype=int),
                            "end": pd.Series([], dtype=int), "gene": pd.Series([], dtype=str),
@@ -65,9 +121,7 @@ def _sample_table(rows, names, anti, shift=0.0, factor=1.0):
     return CNA(df, {"sample_id": "smp"})
 
 
-def _ref_table(rows, names, inp, tkeys):
-    import pandas as pd
-    from cnvlib.cnary import CopyNumArray as CNA
+def _ref_table(rows, names, inp, tkeys, mode="fresh"):
     cols = ["chromosome", "start", "end", "gene", "log2"]
     if inp["hasdepth"]:
         cols.append("depth")
@@ -87,7 +141,7 @@ def _ref_table(rows, names, inp, tkeys):
             rec.append(rm / GU)
         rec.append(sp / SU)
         recs.append(tuple(rec))
-    return CNA(pd.DataFrame.from_records(recs, columns=cols), {"sample_id": "reference"})
+    return _assemble(recs, cols, [tuple(r[:3]) for r in rows], mode, "reference")
 
 
 def _enc_rows(cna, names):
@@ -127,15 +181,17 @@ def _errkind(msg):
     return "other"
 
 
-def _one_run(inp, tgt, ant, ref, shift=0.0, factor=1.0):
+def _one_run(inp, tgt, ant, ref, shift=0.0, factor=1.0, build=FRESH):
     """One real do_fix call -> (err, errkind, encoded output rows)."""
     from cnvlib import fix
     names = _names(inp)
     tkeys = {(r[0], r[1], r[2]) for r in inp["tgt"]}
     try:
-        t = _sample_table(tgt, names, False, shift, factor)
-        a = _sample_table(ant, names, True, shift, factor)
-        r = _ref_table(ref, names, inp, tkeys)
+        t = _sample_table(tgt, names, False, shift, factor, build[0])
+        a = _sample_table(ant, names, True, shift, factor, build[1])
+        r = _ref_table(ref, names, inp, tkeys, build[2])
+    except MachineryError:
+        raise
     except Exception as e:  # building the input is harness work
         raise MachineryError(f"could not build the input tables: {e!r}")
     try:
@@ -151,20 +207,22 @@ def execute(inp):
     rec = {k: inp[k] for k in ("op", "nauto", "gc", "edge", "rmask", "hasgc", "hasrmask", "hasdepth",
                                "ref", "tgt", "ant")}
     rec["naming"] = inp.get("naming", 0)
+    rec["build"] = list(inp.get("build", FRESH))
     var = dict(NOVAR)
     var.update({k: v for k, v in inp.get("var", {}).items() if k in NOVAR})
-    err, kind, out = _one_run(inp, inp["tgt"], inp["ant"], inp["ref"])
+    err, kind, out = _one_run(inp, inp["tgt"], inp["ant"], inp["ref"], build=rec["build"])
     rec.update(err=err, errkind=kind, out=out)
     verr, vout = "", []
     if var["kind"] == "scale2k":
-        verr, _, vout = _one_run(inp, inp["tgt"], inp["ant"], inp["ref"], float(var["k"]), 2.0 ** var["k"])
+        verr, _, vout = _one_run(inp, inp["tgt"], inp["ant"], inp["ref"], float(var["k"]), 2.0 ** var["k"],
+                                 rec["build"])
     elif var["kind"] == "scalef":
         f = var["fnum"] / var["fden"]
-        verr, _, vout = _one_run(inp, inp["tgt"], inp["ant"], inp["ref"], math.log2(f), f)
+        verr, _, vout = _one_run(inp, inp["tgt"], inp["ant"], inp["ref"], math.log2(f), f, rec["build"])
     elif var["kind"] == "perm":
         verr, _, vout = _one_run(inp, [inp["tgt"][p - 1] for p in var["tperm"]],
                                  [inp["ant"][p - 1] for p in var["aperm"]],
-                                 [inp["ref"][p - 1] for p in var["rperm"]])
+                                 [inp["ref"][p - 1] for p in var["rperm"]], build=var["build"])
     elif var["kind"] != "none":
         raise MachineryError(f"unknown variant {var['kind']}")
     var.update(err=verr, out=vout)
@@ -181,6 +239,8 @@ def _inputs_from_states(states):
         inp = to_py(st["inp"])
         inp["naming"] = 0
         inp["var"] = dict(NOVAR)
+        k = len(out)
+        inp["build"] = [BUILDS[k % 6], BUILDS[(k // 6 + k) % 6], BUILDS[(k // 36 + 2 * k) % 6]]
         out.append(inp)
     return out
 
@@ -359,7 +419,9 @@ def gen_case(rng: random.Random, hard, var_kind, big):
             var["tperm"] = list(range(1, len(tgt) + 1))
             var["aperm"] = list(range(1, len(ant) + 1))
     op = "fix" if var_kind == "none" else f"fix_{var_kind}"
-    return {"op": op, "nauto": nauto, "naming": rng.choice([0, 1]), "gc": gc, "edge": edge, "rmask": rmask,
+    var["build"] = [rng.choice(BUILDS) for _ in range(3)] if var_kind == "perm" else list(FRESH)
+    build = [rng.choice(BUILDS) for _ in range(3)]
+    return {"build": build, "op": op, "nauto": nauto, "naming": rng.choice([0, 1]), "gc": gc, "edge": edge, "rmask": rmask,
             "hasgc": hasgc, "hasrmask": hasrmask, "hasdepth": hasdepth, "ref": ref, "tgt": tgt, "ant": ant,
             "var": var}
 
@@ -506,6 +568,14 @@ def _bumps(ctx: Ctx, rec):
         ctx.bump("reference_without_gc_column")
     if not rec["hasrmask"]:
         ctx.bump("reference_without_rmask_column")
+    for tab, mode in zip(("tgt", "ant", "ref"), rec["build"]):
+        if rec[tab] and rec[tab] != sorted(rec[tab]):
+            ctx.bump("unsorted_table_built_" + mode)
+    if rec["var"]["kind"] == "perm":
+        for tab, pk, mode in zip(("tgt", "ant", "ref"), ("tperm", "aperm", "rperm"), rec["var"]["build"]):
+            rows = [rec[tab][p - 1] for p in rec["var"][pk]]
+            if rows and rows != sorted(rows):
+                ctx.bump("permuted_twin_table_built_" + mode)
     if rec["var"]["kind"] != "none":
         ctx.bump("pair_" + rec["var"]["kind"])
     if rec["err"]:
